@@ -12,13 +12,18 @@ CLAIMED = {
         "Lean 4 theorems over a line-by-line model of TraitList (every mutator, _normalize_slice_or_index): refinement to the "
         "builtin-list model, failure atomicity, the replay law, removed-exactness and the index normal form, for lists of every "
         "length and every integer index / slice (unbounded, by induction and linear-arithmetic lemmas), lifted to all histories. "
-        "The model is tied to the source by a correspondence check (exhaustive small scope + random histories, model and real "
-        "code run on the same lines) and a translated mutator table; a Python oracle evaluates the property statement on the "
-        "real code to produce concrete replays.",
+        "The model is tied to the source twice: (1) by TRANSLATION — the source text of every TraitList mutator and of "
+        "_normalize_slice_or_index / _removed_items is translated on every run into a deep-embedded Python subset "
+        "(Model/PyL.lean, Generated/ListProg.lean) and the hand-written model is proved equal to its interpretation for every "
+        "list, argument and validator (C05_step_is_source; C05_source_property states the property of the interpreted source), "
+        "plus a translated mutator table; (2) by a correspondence check (exhaustive small scope + random histories, model and "
+        "real code run on the same lines). A Python oracle evaluates the property statement on the real code to produce "
+        "concrete replays.",
         "Trusted: Lean kernel (+leanchecker in thorough), axioms propext/Classical.choice/Quot.sound only; the hand model of "
         "CPython list/slice (validated against the builtin on every run); the harness. list.sort is a model parameter.",
-        "Lean 4 proof (refinement + replay law by induction) with model-code correspondence check",
-        "DESIGN.md §5 C05"),
+        "Lean 4 proof (refinement + replay law by induction) over a model proved equal to the interpretation of the "
+        "translated source, with model-code correspondence check",
+        "DESIGN.md §5 C05, §10.2"),
 }
 
 CLAIMED["C04"] = (
@@ -27,13 +32,17 @@ CLAIMED["C04"] = (
     "'all elements are validator outputs and minlen <= len <= maxlen' is preserved by every mutator and established by "
     "whole-value assignment, for every validator, bound and history (induction); a rejected operation is TraitError and "
     "leaves the state; every length-changing mutator is guarded (decide over the translated method tables). Tied to the "
-    "source by correspondence on real HasTraits objects; nested List(List), Dict(K, List), Set, Dict traits are covered "
+    "source by TRANSLATION (every TraitListObject override, with super() bound to the translated TraitList methods, is "
+    "translated on every run and the model is proved equal to its interpretation: C04_step_is_source, C04_guard_is_source, "
+    "C04_bound_is_source; C04_source_history is the every-reachable-state invariant of the interpreted source) and by "
+    "correspondence on real HasTraits objects; nested List(List), Dict(K, List), Set, Dict traits are covered "
     "by the statement-level oracle stream and by the Dict/Set invariants of C06/C07.",
     "Trusted: Lean kernel, standard axioms only; Py.List model; harness; inner traits are abstract validators in the "
     "theorems (their own correctness is C01/C03). Nested containers: invariant proved per level, composition by the "
     "validator hypothesis; the nested stream is oracle-checked, not model-checked.",
-    "Lean 4 proof (invariant by induction over operations) with model-code correspondence check",
-    "DESIGN.md §5 C04")
+    "Lean 4 proof (invariant by induction over operations) over a model proved equal to the interpretation of the "
+    "translated source, with model-code correspondence check",
+    "DESIGN.md §5 C04, §10.2")
 
 CLAIMED["C06"] = (
     "Lean 4 theorems over a line-by-line model of TraitDict (every mutator, dict_event_factory, the notifier list called in "
@@ -42,8 +51,9 @@ CLAIMED["C06"] = (
     "the reconstruction law for the (removed, added, changed) triple, one/never-empty event, silence, the observer's merged "
     "view, and 'every notifier receives a faithful triple' for any notifier list; lifted to all histories by induction. "
     "The statement sequence of dict_event_factory is regenerated from the source by a translator on every run and proved equal "
-    "to the modelled one (so removing the added.copy() line breaks a proof obligation). Correspondence: model and real "
-    "TraitDict on the same histories.",
+    "to the modelled one (so removing the added.copy() line breaks a proof obligation); the source text of all 8 mutators is "
+    "translated on every run (pylmap, Model/PyLMap.lean) and the model step is proved equal to its interpretation "
+    "(C06_step_is_source, loops by induction). Correspondence: model and real TraitDict on the same histories.",
     "Trusted: Lean kernel, standard axioms; Py.Dict model of CPython dict (insertion-ordered association list); hashing/== of "
     "keys is structural in the model (1 == True == 1.0 collisions run on implementation + oracle only); translator dictevent; harness.",
     "Lean 4 proof (refinement + reconstruction law by induction) with translated factory body and model-code correspondence",
@@ -54,7 +64,9 @@ CLAIMED["C07"] = (
     "the delta law (removed ⊆ pre, added ∩ pre = ∅, (pre − removed) ∪ added = post, not both empty), silence, one event, copies "
     "(equal members, same validator, no notifiers, still validating); lifted to histories by induction. Hypotheses forced by the "
     "code are explicit and each has a proved negation witness and a known-finding entry (F24 ^= with an item present only after "
-    "validation, pinned by an existing test; F25 deepcopy re-validates). Correspondence: model and real TraitSet on the same histories.",
+    "validation, pinned by an existing test; F25 deepcopy re-validates). The source text of all 13 mutators is translated on every "
+    "run (pylmap) and the model step is proved equal to its interpretation (C07_step_is_source). Correspondence: model and real "
+    "TraitSet on the same histories.",
     "Trusted: Lean kernel, standard axioms; Py.Set model (duplicate-free list up to Equiv); set.pop is given the popped member as a "
     "hint from the implementation run; iteration order of operands is not modelled (validators used have order-independent outcomes); harness.",
     "Lean 4 proof (refinement + delta law by induction) with model-code correspondence check",
@@ -137,7 +149,9 @@ CLAIMED["C19"] = (
     "two theorems close the gap: every path is V*/G* M* N? (decide over the table — interleaving validation with mutation or "
     "notifying before mutating breaks this obligation), and for EVERY effect sequence in that order a failure at a validator or "
     "guard leaves the container unmutated and nobody notified, a failure of the builtin operation leaves nobody notified, and at "
-    "most one notification is sent. Correspondence/oracle: systematic fault injection on the real code — the k-th user callback "
+    "most one notification is sent. For list, dict and set mutators the abstraction is backed by the full translation of the "
+    "source (C19_list_source_no_effect, C19_list_source_kth_item_fails; C06/C07_source_atomic): whenever the interpreted source "
+    "raises, the contents are as before and nothing was notified. Correspondence/oracle: systematic fault injection on the real code — the k-th user callback "
     "invocation of an operation raises TraitError/ValueError/AttributeError/RuntimeError — over List traits (also through the Lean "
     "model), nested List/Dict/Set traits, custom validators incl. Either/Tuple members, defaults, property getter/setter (also "
     "inside the dependency notification), adapter factories (also reached through Supports/AdaptsTo/Either traits), static / "
